@@ -161,7 +161,7 @@ def need(cond, msg, fi=None, node=None):
         raise AnalysisError(msg + (" (%s)" % where if where else ""), where)
 
 
-def guards_of(fi, nid):
+def guards_of(fi, nid, named=False):
     """Branch conditions controlling cfg node nid: list of (test ast, polarity bool, branch node id)
     for every if/while node on which nid is control dependent in the simple structured sense
     (nid lies in exactly one arm)."""
@@ -181,9 +181,9 @@ def guards_of(fi, nid):
         in_t = nid in reach_t
         in_f = nid in reach_f
         if in_t and not in_f:
-            out.append(strip_not(n.ast.test, True) + (n.id,))
+            out.append(_resolved(fi, n, True, named))
         elif in_f and not in_t:
-            out.append(strip_not(n.ast.test, False) + (n.id,))
+            out.append(_resolved(fi, n, False, named))
         elif not in_t and not in_f and n.kind == "if" and n.id != nid and cfg.dominates(n.id, nid):
             # guard clause: one arm always leaves (continue / break / return / raise), so the code behind the `if` runs only
             # when the other arm was taken
@@ -198,10 +198,22 @@ def guards_of(fi, nid):
                 reach = {start} | cfg.reachable_from(start, avoid={n.id}, edge_filter=no_exc)
                 leaves[label] = nid not in reach
             if leaves.get("T") and not leaves.get("F", False):
-                out.append(strip_not(n.ast.test, False) + (n.id,))
+                out.append(_resolved(fi, n, False, named))
             elif leaves.get("F") and not leaves.get("T", False):
-                out.append(strip_not(n.ast.test, True) + (n.id,))
+                out.append(_resolved(fi, n, True, named))
     return out
+
+
+def _resolved(fi, n, pol, named=False):
+    """(test, polarity, node id) of a branch node, `not`s folded and (on request) named conditions followed"""
+    t, p = strip_not(n.ast.test, pol)
+    if not named:
+        return (t, p, n.id)
+    t2 = _named_condition(fi, t, n.id)
+    if t2 is not t:
+        t, p = strip_not(t2, p)
+        t = _named_condition(fi, t, n.id)
+    return (t, p, n.id)
 
 
 def strip_not(test, pol):
@@ -210,6 +222,24 @@ def strip_not(test, pol):
         test = test.operand
         pol = not pol
     return (test, pol)
+
+
+def _named_condition(fi, test, nid, depth=0):
+    """A condition held in an explanatory temporary (`is_leading = count == 0` ... `if is_leading:`) is the condition itself:
+    the name is followed to its single, path-free definition when nothing the expression reads is rebound in between."""
+    fl = fi.flow
+    while isinstance(test, ast.Name) and test.id in fl.locals and depth < 3:
+        ds = [d for d in fl.reaching(test.id, nid) if d.kind != "unbound"]
+        if len(ds) != 1 or ds[0].kind != "assign" or ds[0].path or ds[0].value is None:
+            break
+        v = ds[0].value
+        if not isinstance(v, (ast.Compare, ast.BoolOp, ast.UnaryOp, ast.Call, ast.Name)) or (isinstance(v, ast.UnaryOp) and not isinstance(v.op, ast.Not)):
+            break
+        if not fl._stable(ds[0], nid):
+            break
+        test = v
+        depth += 1
+    return test
 
 
 def if_arms(if_ast):
